@@ -618,6 +618,18 @@ def split_msgs(c):
     return [B(m) for m in c["msgs"]]
 
 
+def take(out):
+    """copy a call's result, then scribble over the returned buffer: a later call on the same object
+    must not be affected (outputs must not alias internal state)"""
+    if out is None:
+        return None
+    val = bytes(out)
+    if isinstance(out, bytearray):
+        for i in range(len(out)):
+            out[i] ^= 0xa5
+    return val
+
+
 def seq_canon(state, outs):
     return " ".join([hx(state)] + [hx(o) for o in outs])
 
@@ -651,7 +663,7 @@ def st_cbc(c):
             o.rijndael.decrypt = rec[0]
         else:
             o.rijndael.encrypt = rec[0]
-        outs = [bytes((o.decrypt if dec else o.encrypt)(bytearray(m))) for m in msgs]
+        outs = [take((o.decrypt if dec else o.encrypt)(bytearray(m))) for m in msgs]
         return seq_canon(o.IV, outs)
     impl = run_impl(go)
     ref = None
@@ -691,7 +703,7 @@ def st_ctr(c):
         o.rijndael.encrypt = rec[0]
         if setctr is not None:
             o.counter = bytearray(setctr)
-        outs = [bytes(o.encrypt(bytearray(m))) for m in msgs]
+        outs = [take(o.encrypt(bytearray(m))) for m in msgs]
         return seq_canon(o.counter, outs)
     impl = run_impl(go)
     cb = 16 - len(iv)
@@ -750,7 +762,7 @@ def st_tdes(c):
 
     def go():
         o = python_tripledes.new(bytearray(key), bytearray(iv))
-        outs = [bytes((o.decrypt if dec else o.encrypt)(bytearray(m))) for m in msgs]
+        outs = [take((o.decrypt if dec else o.encrypt)(bytearray(m))) for m in msgs]
         return seq_canon(o._Python_TripleDES__key1.iv, outs)
     impl = run_impl(go)
     ref, line = None, None
@@ -786,7 +798,7 @@ def st_rc4(c):
 
     def go():
         o = python_rc4.new(bytearray(key))
-        return " ".join(hx(bytes(o.encrypt(bytearray(m)))) for m in msgs) or "-"
+        return " ".join(hx(take(o.encrypt(bytearray(m)))) for m in msgs) or "-"
     impl = run_impl(go)
     if 16 <= len(key) <= 256:
         ks = ref_rc4(key, sum(len(m) for m in msgs))
@@ -1949,6 +1961,155 @@ def part_aead(ctx, W):
 
 
 # ======================================================================================
+# part 0 (runs FIRST, never cut by any budget): HISTORIES on one object
+#   every AEAD object gets sequences of seal/open calls of very different sizes; each call's result must be
+#   (a) the standard's value for that call alone (independent reference), (b) what a fresh object with the
+#   same key returns, and the caller's buffers must come back unchanged; returned buffers are scribbled over
+#   before the next call.  For GCM the Lean model runs the same history on its stateful object model.
+# ======================================================================================
+def _aead_make(kind, key):
+    if kind == "gcm":
+        return _gcm_obj(key, [None])
+    if kind in ("ccm", "ccm8"):
+        return _ccm_obj(key, 16 if kind == "ccm" else 8, [None])
+    from tlslite.utils.chacha20_poly1305 import CHACHA20_POLY1305
+    return CHACHA20_POLY1305(bytearray(key), "python")
+
+
+def _aead_ref(kind, key, op, nonce, data, aad):
+    if kind == "chachapoly":
+        return ref_aead_seal(key, nonce, data, aad) if op == "seal" else ref_aead_open(key, nonce, data, aad)
+    E = lambda b: ref_aes_encrypt(key, b)
+    if kind == "gcm":
+        return ref_gcm_seal(E, nonce, data, aad) if op == "seal" else ref_gcm_open(E, nonce, data, aad)
+    tl = 16 if kind == "ccm" else 8
+    return ref_ccm_seal(E, tl, nonce, data, aad) if op == "seal" else ref_ccm_open(E, tl, nonce, data, aad)
+
+
+def _aead_call(obj, op, nonce, data, aad):
+    """one call with the caller's buffers checked for being left alone"""
+    n, d, a = bytearray(nonce), bytearray(data), bytearray(aad)
+    out = (obj.seal if op == "seal" else obj.open)(n, d, a)
+    val = take(out)
+    tag = ""
+    if bytes(n) != nonce:
+        tag += " caller-nonce-modified"
+    if bytes(d) != data:
+        tag += " caller-data-modified"
+    if bytes(a) != aad:
+        tag += " caller-aad-modified"
+    return canon(val) + tag
+
+
+@stage("aead-history")
+def st_aead_history(c):
+    kind, key = c["kind"], B(c["key"])
+    calls = [(x["op"], B(x["nonce"]), B(x["data"]), B(x["aad"])) for x in c["calls"]]
+
+    def go():
+        obj = _aead_make(kind, key)
+        outs = []
+        for i, (op, nonce, data, aad) in enumerate(calls):
+            r = _aead_call(obj, op, nonce, data, aad)
+            fresh = _aead_call(_aead_make(kind, key), op, nonce, data, aad)
+            if fresh != r:
+                r += " differs-from-fresh-object@call%d" % i
+            outs.append(r)
+        return " ".join(outs)
+    ref = " ".join(canon(_aead_ref(kind, key, op, nonce, data, aad)) for op, nonce, data, aad in calls)
+    line = None
+    if kind == "gcm" and len(key) in (16, 24, 32):
+        line = "gcm_seq aes:%s %s" % (hx(key), " ".join("%s %s %s %s" % ("s" if op == "seal" else "o", hx(n), hx(d), hx(a))
+                                                         for op, n, d, a in calls))
+    return run_impl(go), ref, line
+
+
+HIST_DIRECTED = [
+    # sizes in bytes; "o" = open of a reference-sealed message of that size, "x" = open of a tampered one
+    [("s", 17), ("s", 255 * 16), ("s", 16), ("o", 33), ("s", 0), ("o", 0)],                    # 254/255-block carry, then small
+    [("s", 4064), ("s", 60), ("o", 60), ("s", 1)],                                            # the size of a big TLS record
+    [("o", 256 * 16 + 1), ("s", 15), ("o", 15), ("x", 15), ("s", 16)],                        # carry caused by open()
+    [("s", 1), ("s", 15), ("s", 16), ("s", 17), ("o", 1), ("o", 16), ("x", 0), ("s", 0)],     # small only (control)
+    [("s", 65536 + 5), ("s", 16), ("o", 17), ("s", 255 * 16), ("o", 31)],                      # second counter byte
+]
+
+
+def _mk_history(rng, kind, key, plan):
+    calls = []
+    for op, size in plan:
+        nonce, aad = rb(rng, 12), rb(rng, rng.choice([0, 5, 13, 16, 21]))
+        pt = rb(rng, size)
+        if op == "s":
+            calls.append(dict(op="seal", nonce=nonce.hex(), data=pt.hex(), aad=aad.hex()))
+        else:
+            sealed = bytearray(_aead_ref(kind, key, "seal", nonce, pt, aad))
+            if op == "x":
+                sealed[rng.randrange(len(sealed))] ^= 1 << rng.randrange(8)
+            calls.append(dict(op="open", nonce=nonce.hex(), data=bytes(sealed).hex(), aad=aad.hex()))
+    return calls
+
+
+def part_histories(ctx, W):
+    rng = ctx.rng
+    thorough = ctx.thorough()
+    # --- AEAD objects: directed histories (deterministic plans, fresh random content)
+    for kind, kl in (("gcm", 16), ("gcm", 32), ("ccm", 16), ("ccm8", 16), ("chachapoly", 32)):
+        plans = HIST_DIRECTED if (thorough or kind == "gcm") else HIST_DIRECTED[:4]
+        for pi, plan in enumerate(plans):
+            if kind == "gcm" and kl == 32 and pi == 4 and not thorough:
+                continue
+            key = rb(rng, kl)
+            ctx.count("history:%s" % kind)
+            do(ctx, W, "aead-history", dict(kind=kind, key=key.hex(), calls=_mk_history(rng, kind, key, plan), plan=pi),
+               vkey="c09:aead-result-depends-on-object-history")
+    # published vector AFTER a large call on the same object (GCM spec test case 4)
+    k = B("feffe9928665731c6d6a8f9467308308")
+    iv = "cafebabefacedbaddecaf888"
+    p4 = ("d9313225f88406e5a55909c5aff5269a86a7a9531534f7da2e4c303d8a318a721c3c0c95956809532fcf0e2449a6b525"
+          "b16aedf5aa0de657ba637b39")
+    a4 = "feedfacedeadbeeffeedfacedeadbeefabaddad2"
+    c4 = ("42831ec2217774244b7221b784d0d49ce3aa212f2c02a4e035c17e2329aca12e21d514b25466931c7d8f6a5aac84aa05"
+          "1ba30b396a0aac973d58e091" "5bc94fbc3221a5db94fae95ae7121a47")
+    for big in (4064, 16384):
+        case = dict(kind="gcm", key=k.hex(), vector="gcm-spec-tc4-after-%d" % big, calls=[
+            dict(op="seal", nonce=rb(rng, 12).hex(), data=rb(rng, big).hex(), aad=""),
+            dict(op="seal", nonce=iv, data=p4, aad=a4), dict(op="open", nonce=iv, data=c4, aad=a4)])
+        impl, ref, line = STAGES["aead-history"](case)
+        ctx.case(key=("vec", case["vector"]), sample=None)
+        exp_tail = " ".join([c4, p4])
+        W.oracle("c09:aead-result-depends-on-object-history", "aead-history", case, impl, ref,
+                 what="aes-gcm: published vector gcm-spec-tc4 not reproduced after a %d byte seal on the same object" % big)
+        if not ref.endswith(exp_tail):
+            raise AssertionError("harness reference wrong on gcm-spec-tc4 history")
+        W.model("aead-history", case, line, ref)
+    # --- random histories (sizes from a mixed pool)
+    pool = [0, 1, 15, 16, 17, 31, 32, 33, 100, 255, 256, 4064, 4080, 4097]
+    for _ in range(ctx.pick(4, 30)):
+        kind, kl = rng.choice([("gcm", 16), ("gcm", 32), ("ccm", 16), ("ccm8", 32), ("chachapoly", 32)])
+        key = rb(rng, kl)
+        plan = [(rng.choice(["s", "s", "o", "x"]), rng.choice(pool)) for _ in range(rng.randrange(2, 7))]
+        do(ctx, W, "aead-history", dict(kind=kind, key=key.hex(), calls=_mk_history(rng, kind, key, plan)),
+           vkey="c09:aead-result-depends-on-object-history")
+    # --- CTR objects: carries out of the low counter byte / low two bytes within and across calls
+    for il, sizes in ((12, [255 * 16, 16, 17, 0, 1]), (12, [256 * 16 + 1, 15, 16]), (8, [16, 255 * 16 + 3, 48]),
+                      (14, [255 * 16, 16 * 255, 5]), (0, [254 * 16, 32, 16])) + (((12, [65536 + 16, 16, 1]),) if thorough else ()):
+        key, iv = rb(rng, 16), rb(rng, il)
+        do(ctx, W, "aes-ctr", dict(key=key.hex(), iv=iv.hex(), msgs=[rb(rng, n).hex() for n in sizes]))
+    for start, sizes in ((0x000000fe, [16, 16, 16, 5]), (0x0000fffd, [48, 16, 1]), (0x00fffffe, [33, 16]), (0x000000ff, [16, 32]),
+                         (0x0000feff, [4096 + 16, 16])):
+        key = rb(rng, 16)
+        ctr = rb(rng, 12) + start.to_bytes(4, "big")
+        do(ctx, W, "aes-ctr", dict(key=key.hex(), iv="00" * 16, counter=ctr.hex(), msgs=[rb(rng, n).hex() for n in sizes], inc_bits=32))
+    # --- CBC / 3DES / RC4 objects: long then short calls on one object
+    key, iv = rb(rng, 16), rb(rng, 16)
+    do(ctx, W, "aes-cbc", dict(key=key.hex(), iv=iv.hex(), msgs=[rb(rng, n).hex() for n in (16, 4096, 0, 16, 32)]))
+    do(ctx, W, "aes-cbc", dict(key=key.hex(), iv=iv.hex(), msgs=[rb(rng, n).hex() for n in (4080, 16, 16)], dir="dec"))
+    do(ctx, W, "3des-cbc", dict(key=rb(rng, 24).hex(), iv=rb(rng, 8).hex(), msgs=[rb(rng, n).hex() for n in (8, 1024, 0, 8, 16)]))
+    do(ctx, W, "rc4", dict(key=rb(rng, 16).hex(), msgs=[rb(rng, n).hex() for n in (1, 4097, 0, 255, 256, 17)]))
+    W.flush()
+
+
+# ======================================================================================
 def run(ctx):
     ctx.rule = ("per primitive: published vectors; seeded keys/nonces/AAD/messages over every listed length class "
                 "(0, partial block, exact blocks, several blocks), counters incl. the 32-bit edge, guards; AEAD open on every "
@@ -1963,6 +2124,7 @@ def run(ctx):
     ctx.extra["not_proved"] = ["AES: fully proved against FIPS-197 for block size 16 (model tied to rijndael.py by correspondence)",
                                "single DES (not modelled; 3DES-CBC against OpenSSL)"]
     W = Work(ctx)
+    part_histories(ctx, W)                      # directed families first; nothing in this check is cut by a time budget
     for _rep in range(ctx.pick(1, 3)):          # thorough: three passes with fresh random keys / messages / splits
         part_chacha(ctx, W)
         part_modes(ctx, W)
